@@ -1,5 +1,5 @@
 """BOUNDED stand-in for C11 (labelled bounded, never counted as proved): exhaustive enumeration of small schedules and filter lists on the
-real TaskFilterTrackProcessor. Bound: <= 3 schedule elements, each a leaf or a parallel of 1-2 leaves, leaves drawn from 4 distinct
+real TaskFilterTrackProcessor. Bound: <= 3 schedule elements, each a leaf or a parallel of 1-2 leaves (with or without an explicit client count), leaves drawn from 4 distinct
 tasks (2 names x op types x tag shapes), <= 2 filters from {name, type:, tag:} forms, include and exclude mode.
 Also replays a single recorded case:  C11_filters.py --replay <file>"""
 import itertools
@@ -20,6 +20,8 @@ def build(schedule_spec):
     for el in schedule_spec:
         if isinstance(el, str):
             sched.append(pool[el]())
+        elif el[0].startswith("#"):
+            sched.append(track.Parallel([pool[x]() for x in el[1:]], clients=int(el[0][1:])))  # a parallel element with an explicit client count
         else:
             sched.append(track.Parallel([pool[x]() for x in el]))
     ch = track.Challenge("c", schedule=sched, default=True)
@@ -86,13 +88,13 @@ def main():
         p = run_case([tuple(x) if isinstance(x, list) else x for x in c["schedule"]], c["filters"], c["exclude"])
         print(("REPRODUCED: " if p else "NOT-REPRODUCED: ") + f"schedule {c['schedule']} with {'exclude' if c['exclude'] else 'include'} filters {c['filters']}: {p}")
         sys.exit(1 if p else 0)
-    elements = ["a", "b", "c", "d", ("a", "b"), ("b", "c"), ("c", "d"), ("a",), ("a", "d")]
+    elements = ["a", "b", "c", "d", ("a", "b"), ("b", "c"), ("c", "d"), ("a",), ("a", "d"), ("#2", "a", "b"), ("#1", "c", "d"), ("#3", "a")]
     flt = ["a", "b", "type:search", "type:bulk", "tag:setup", "tag:heavy", "zzz"]
     cases = nontrivial = 0
     violations = []
     for n in (1, 2, 3):
         for spec in itertools.product(elements, repeat=n):
-            names = [x for el in spec for x in (el if isinstance(el, tuple) else (el,))]
+            names = [x for el in spec for x in (el if isinstance(el, tuple) else (el,)) if not x.startswith("#")]
             if len(set(names)) != len(names):
                 continue  # task names are unique within a challenge (enforced by the loader, C10)
             for k in (1, 2):
@@ -104,7 +106,7 @@ def main():
                         p = run_case(spec, fs, exclude)
                         if p and len(violations) < 5:
                             violations.append({"schedule": [list(el) if isinstance(el, tuple) else el for el in spec], "filters": list(fs), "exclude": exclude, "problems": p})
-    json.dump({"bound": "<=3 elements (leaf or parallel of 1-2 leaves) over 4 tasks, 1-2 filters of 7, include+exclude", "cases": cases, "nontrivial": nontrivial, "violations": violations}, open(sys.argv[1], "w"), indent=1)
+    json.dump({"bound": "<=3 elements (leaf or parallel of 1-2 leaves, with/without explicit clients) over 4 tasks, 1-2 filters of 7, include+exclude", "cases": cases, "nontrivial": nontrivial, "violations": violations}, open(sys.argv[1], "w"), indent=1)
     sys.exit(1 if violations else 0)
 
 
